@@ -130,7 +130,9 @@ where
     let diff_pattern = format!(r"^\+\+\+\s(?:.*?/){{{skip_prefix}}}(\S*)");
     let diff_pattern = Regex::new(&diff_pattern).unwrap();
 
-    let lines_pattern = Regex::new(r"^@@.*\+(\d+)(,(\d+))?").unwrap();
+    // `@@ -start[,count] +start[,count] @@ optional section heading`; the heading may
+    // itself contain `+<digits>`, so the ranges are matched where they stand.
+    let lines_pattern = Regex::new(r"^@@ -\d+(?:,\d+)? \+(\d+)(,(\d+))? @@").unwrap();
 
     // Group the filter so that the anchors apply to the whole pattern, not only
     // to the first and the last alternative of `a|b`.
